@@ -346,7 +346,7 @@ func minInt(a, b int) int {
 }
 
 // c19CallAll issues every request of every method against the service of env.
-func c19CallAll(rep *vrep.Report, seed int64, state []svcOp, e *c19Env) {
+func c19CallAll(rep *vrep.Report, t testing.TB, seed int64, state []svcOp, e *c19Env) *c19Env {
 	svcT := reflect.TypeOf((*protocoltypes.ProtocolServiceServer)(nil)).Elem()
 	sv := reflect.ValueOf(e.tp.Service)
 	stateName := "initial"
@@ -368,6 +368,10 @@ func c19CallAll(rep *vrep.Report, seed int64, state []svcOp, e *c19Env) {
 			methods = append(methods, m)
 		}
 	}
+	stateChanging := map[string]bool{}
+	for _, m := range last {
+		stateChanging[m.Name] = true
+	}
 	for _, m := range append(methods, last...) {
 		mt := m.Type
 		streaming := mt.NumIn() == 2 && mt.In(0).Kind() == reflect.Ptr && mt.In(1).Kind() == reflect.Interface && mt.NumOut() == 1
@@ -379,7 +383,8 @@ func c19CallAll(rep *vrep.Report, seed int64, state []svcOp, e *c19Env) {
 		}
 		reqs := e.requests(seed, reqType)
 		fn := sv.MethodByName(m.Name)
-		for _, req := range reqs {
+		for ri := 0; ri < len(reqs); ri++ {
+			req := reqs[ri]
 			timeout := 250 * time.Millisecond
 			ctx, cancel := context.WithTimeout(context.Background(), timeout)
 			var errOut error
@@ -418,12 +423,26 @@ func c19CallAll(rep *vrep.Report, seed int64, state []svcOp, e *c19Env) {
 			cancel()
 			rep.Eval(fmt.Sprintf("%s/%s/err=%v", stateName, m.Name, errOut != nil))
 			rep.AddTransitions(1)
+			if stateChanging[m.Name] && errOut == nil && pan == nil {
+				// the request changed which groups are active: bring a fresh service to the labelled state again, so
+				// that the next request of this method is issued in that state too
+				e.cleanup()
+				e = newC19Env(t, seed, state)
+				sv = reflect.ValueOf(e.tp.Service)
+				fn = sv.MethodByName(m.Name)
+				// same catalogue, values of the new service instance (its account and groups have fresh keys)
+				if nr := e.requests(seed, reqType); len(nr) == len(reqs) {
+					reqs = nr
+				}
+				rep.Add("service_rebuilt_after_state_change", 1)
+			}
 			if pan != nil {
 				site := panicSite(stack)
 				rep.Violation("C19/panic/"+m.Name+"@"+site, fmt.Sprintf("state %s: %s(%s) panics: %v\n%s", stateName, m.Name, shortReq(req), pan, firstLines(stack, 14)), c19Case{state, m.Name, shortReq(req)})
 			}
 		}
 	}
+	return e
 }
 
 func firstLines(s string, n int) string {
@@ -515,7 +534,7 @@ func TestVerifC19(t *testing.T) {
 	}
 	for _, st := range states {
 		e := newC19Env(t, seed, st)
-		c19CallAll(rep, seed, st, e)
+		e = c19CallAll(rep, t, seed, st, e)
 		e.cleanup()
 		rep.AddStates(1)
 	}
